@@ -25,7 +25,8 @@ func TestMain(m *testing.M) {
 		Level: "exploration",
 		Rule: "rapid-generated unions (CombineFields / Field.Combine) of 1..3 fields from marching.Sphere/Box/Line (strength 1, sizes 2..8 cells; thorough: capsules up to 120 cells), centre = 100*k/cpu (k in -2..2 per axis: the storage-block boundaries) plus an offset of +-10 cells, so shapes sit inside one block or straddle 1..2 boundaries per axis incl. negative coordinates; cubesPerUnit log-uniform in [0.4,100] (thorough up to 1000); cutoff in [-1 cell, 0]; AddField + March / MarchOnAttribute. " +
 			"Oracle (validity predicate + reference): well-formed; every directed edge balanced (count(a->b)==count(b->a)); every edge used exactly once per direction unless an endpoint lies within tau=2*sqrt(3)*max(1e-4,1e-3*cpu) cells of a lattice corner (known finding: vertex merging by absolute rounding); no repeated id in a triangle; signed volume > 0 and within (surface area x cell) of a reference volume (half-cell voxel count of the exact union SDF below the cutoff); |f(v)-cutoff| <= cell+0.002 for every vertex with f the exact 1-Lipschitz distance field written in the harness. " +
-			"Non-trivial = the shape's cell range crosses >= 1 block boundary or >= 2 shapes overlap. Distinct by case JSON.",
+			"Non-trivial = the shape's cell range crosses >= 1 block boundary or >= 2 shapes overlap. Distinct by case JSON. " +
+			"Sub-checks on prescribed lattice samples (-2 inside, 0 outside, cutoff -1): cube-configurations (all 255 non-empty masks of one cell, canvas and Field.March), cell-pairs (all 4 095 assignments of two cells sharing a face, per axis), lattice-patterns (random 2..5^3 point boxes at several block positions); oracle: every vertex is the midpoint of a cut lattice edge, every cut edge carries a vertex, directed edges balanced after merging by position, positive bounded volume; non-trivial = a cell face with exactly its two diagonal corners inside.",
 		Assumptions: []string{
 			"the below-threshold region lies strictly inside the declared domain: strength 1, cutoff <= 0 (the canvas holds 0 outside sampled regions)",
 			"edge multiplicity > 1 is tolerated only when an endpoint lies within tau of a lattice corner (merge-by-rounding pinch, KNOWN_FINDINGS) - still balanced; anything else (unbalanced edge, multiplicity away from lattice corners, flipped patch, displaced vertex) is a violation",
